@@ -40,7 +40,7 @@ func loadAll(repo, prelude, tags string) (*Program, *Specs) {
 		fmt.Fprintln(os.Stderr, "govc: load:", err)
 		os.Exit(2)
 	}
-	specs, err := LoadSpecs(findContractFiles(repo, prelude))
+	specs, err := LoadSpecs(findContractFiles(repo, prelude, tags))
 	if err != nil {
 		fmt.Fprintln(os.Stderr, "govc: contracts:", err)
 		os.Exit(2)
